@@ -131,10 +131,8 @@ class Aff(AbstractValue):
             e, neg = d, True
         else:   # LtE:  d <= 0  ==  not (d - 1 >= 0)
             e, neg = d.add(Aff({}, 1), -1), True
-        if e.terms[sorted(e.terms)[0]] < 0:
-            # e >= 0  ==  not (-e - 1 >= 0)
-            e, neg = e.scale(-1).add(Aff({}, 1), -1), not neg
-        return Cond(('aff', 'ge0', repr(e)), negated=neg)
+        key, flip = canonical_ge0(e)
+        return Cond(key, negated=(neg != flip))
 
     lower_bounds = {}   # optional: symbol -> known lower bound (set by a rule for the duration of one analysis)
     on_truth = None     # optional observer: called with the Aff whose truthiness is being tested
@@ -150,6 +148,15 @@ class Aff(AbstractValue):
         if other is None:
             return False
         return self == other
+
+
+def canonical_ge0(e):
+    """Canonical decision key for the integer constraint  e >= 0  and whether the key's truth value is its negation:
+    the expression is given a positive leading coefficient ( e >= 0  ==  not (-e - 1 >= 0) )."""
+    flip = False
+    if e.terms and e.terms[sorted(e.terms)[0]] < 0:
+        e, flip = e.scale(-1).add(Aff({}, 1), -1), True
+    return ('aff', 'ge0', repr(e)), flip
 
 
 class LenStr(AbstractValue):
